@@ -19,14 +19,14 @@ type vrfMsg struct {
 	src     []byte
 }
 
-func (m *vrfMsg) Mailbox() string      { return m.mailbox }
-func (m *vrfMsg) ID() string           { return m.id }
-func (m *vrfMsg) From() *mail.Address  { return &mail.Address{} }
-func (m *vrfMsg) To() []*mail.Address  { return nil }
-func (m *vrfMsg) Date() time.Time      { return time.Time{} }
-func (m *vrfMsg) Subject() string      { return "" }
-func (m *vrfMsg) Size() int64          { return m.size }
-func (m *vrfMsg) Seen() bool           { return false }
+func (m *vrfMsg) Mailbox() string     { return m.mailbox }
+func (m *vrfMsg) ID() string          { return m.id }
+func (m *vrfMsg) From() *mail.Address { return &mail.Address{} }
+func (m *vrfMsg) To() []*mail.Address { return nil }
+func (m *vrfMsg) Date() time.Time     { return time.Time{} }
+func (m *vrfMsg) Subject() string     { return "" }
+func (m *vrfMsg) Size() int64         { return m.size }
+func (m *vrfMsg) Seen() bool          { return false }
 func (m *vrfMsg) Source() (io.ReadCloser, error) {
 	return &vrf.ByteSource{Data: m.src}, nil
 }
@@ -50,8 +50,8 @@ func (s *vrfStore) GetMessages(mailbox string) ([]storage.Message, error) {
 	}
 	return out, nil
 }
-func (s *vrfStore) MarkSeen(mailbox, id string) error    { return nil }
-func (s *vrfStore) PurgeMessages(mailbox string) error   { return nil }
+func (s *vrfStore) MarkSeen(mailbox, id string) error  { return nil }
+func (s *vrfStore) PurgeMessages(mailbox string) error { return nil }
 func (s *vrfStore) RemoveMessage(mailbox, id string) error {
 	if s.onRemove != nil {
 		s.onRemove()
